@@ -401,7 +401,7 @@ fn query_storage_checks(ev: &mut Ev) {
         use vh::ndarray::s;
         use vh::ndarray_interp::interp1d::cubic_spline::CubicSpline;
         let mut rng = Rng::derive(13, "C13-shared-buffer", &[0]);
-        for round in 0..40u64 {
+        for round in 0..(if cfg!(miri) { 4u64 } else { 40 }) {
             let n = 4 + rng.below(6);
             let cols = 2 + rng.below(3);
             let mut table = if round % 2 == 0 { Array2::<f64>::zeros((n, cols)) } else { Array2::<f64>::zeros((cols, n)).reversed_axes() };
@@ -458,7 +458,7 @@ fn query_storage_checks(ev: &mut Ev) {
         use vh::ndarray::{Array3, Axis};
         use vh::ndarray_interp::interp2d::Interp2D;
         let mut rng = Rng::derive(13, "C13-broadcast-queries", &[0]);
-        for round in 0..40u64 {
+        for round in 0..(if cfg!(miri) { 4u64 } else { 40 }) {
             let (nx, ny) = (3 + rng.below(4), 3 + rng.below(3));
             let ax: Array1<f64> = (0..nx).map(|i| i as f64 * 1.5 + if i > 0 { rng.f01() } else { 0.0 }).collect();
             let ay: Array1<f64> = (0..ny).map(|i| -2.0 + i as f64 * 0.75 + if i > 0 { rng.f01() * 0.5 } else { 0.0 }).collect();
@@ -528,7 +528,7 @@ fn main() {
         }
     });
     let mut ev = ev;
-    if args.only.is_none() {
+    if args.only.is_none() && args.shard == 0 {
         query_storage_checks(&mut ev);
     }
     ev.finish(
